@@ -38,6 +38,16 @@ def pupil_field(case):
     if case['apod']:
         r = U.rng_of(case['seed'])
         f = f * (0.5 + r.uniform(0, 1, (ny, nx)))
+    ap = case.get('aperture')
+    if ap:
+        # an aperture smaller than the array: exact zeros around it, with borders that differ between the axes and between the two sides
+        # (rectangular stop, slit, decentred aperture); the tilt is still k waves across the *array* width D
+        t0, b0, l0, r0 = (min(int(v * n), n - 1) for v, n in zip(ap, (ny, ny, nx, nx)))
+        b0 = min(b0, ny - 1 - t0)
+        r0 = min(r0, nx - 1 - l0)
+        m = np.zeros((ny, nx))
+        m[t0:ny - b0, l0:nx - r0] = 1.0
+        f = f * m
     return f
 
 
@@ -68,6 +78,8 @@ def strat_focus(tier):
         'out': st.one_of(st.tuples(oax, oax).map(list), oax.map(lambda k: [k, k])),
         'shift': st.one_of(st.just([0, 0]), st.tuples(sh, sh).map(list)),     # in units of output samples; converted to output units
         'shift_type': st.sampled_from(['tuple', 'tuple', 'ndarray']), 'fftbackend': U.fft_backends,
+        # fractions of the array that are dark above / below / left / right of the aperture
+        'aperture': st.one_of(st.none(), st.none(), st.tuples(*[st.sampled_from([0.0, 0.0, 0.1, 0.25, 0.4])] * 4).map(list)),
     })
 
 
@@ -91,6 +103,9 @@ def _check_focus_inner(case, ctx):
     frac = (kx != int(kx)) or (ky != int(ky))
     ctx.label('route:' + route, 'via:' + via, 'square' if ny == nx else 'nonsquare', 'fractional-tilt' if frac else 'integer-tilt',
               'apod' if case['apod'] else 'pure-tilt')
+    if case.get('aperture'):
+        ap = case['aperture']
+        ctx.label('aperture-in-larger-array', 'aperture-borders-differ' if (ap[0] + ap[1] != ap[2] + ap[3] or ap[0] != ap[1] or ap[2] != ap[3]) else 'aperture-centred-same-borders')
     scale_f = float(np.abs(f).sum())
     if route == 'fft':
         Q = case['Qfft']
@@ -123,7 +138,7 @@ def _check_focus_inner(case, ctx):
             U.check_close(np.abs(data[my // 2:my // 2 + 1, :]) ** 2, np.abs(ref) ** 2, 0, 'focus:where-light-lands:x-row',
                           'FFT route %s Q=%r tilt=%r, row through the origin' % (shape, Q, case['tilt']), atol=1e-8 * scale)
         qx, qy = mx / nx, my / ny        # effective padding factors (ceil rounding)
-        if not case['apod'] and my == mx and abs(kx) * qx <= (mx // 2 - 1) and abs(ky) * qy <= (my // 2 - 1) \
+        if not case['apod'] and not case.get('aperture') and my == mx and abs(kx) * qx <= (mx // 2 - 1) and abs(ky) * qy <= (my // 2 - 1) \
                 and abs(kx * qx - round(kx * qx)) < 1e-12 and abs(ky * qy - round(ky * qy)) < 1e-12:
             # the spot falls exactly on a sample: it must be *the* maximum and sit at k*lambda*f/D
             iy, ix = np.unravel_index(int(np.argmax(np.abs(data))), data.shape)
